@@ -75,6 +75,7 @@ func (pxy *TCPProxy) Run() (remoteAddr string, err error) {
 				pxy.rc.TCPPortManager.Release(pxy.realBindPort)
 			}
 		}()
+		verifhook.At("tcp.run.acquired", "pxy", verifhook.ID(pxy.BaseProxy), "name", pxy.name, "port", pxy.realBindPort, "run_id", pxy.userInfo.RunID)
 		listener, errRet := net.Listen("tcp", net.JoinHostPort(pxy.serverCfg.ProxyBindAddr, strconv.Itoa(pxy.realBindPort)))
 		verifhook.At("tcp.listen", "pxy", verifhook.ID(pxy.BaseProxy), "name", pxy.name, "port", pxy.realBindPort, "err", errRet)
 		if errRet != nil {
